@@ -9,7 +9,7 @@ def beh_text(b, rng=None, canonical=True):
     return [render_tokens(p["toks"], rng, canonical) for p in b["parses"]]
 
 
-def build_script(b, schemas, texts, extra_before=None):
+def build_script(b, schemas, texts, extra_before=None, roundtrip=False):
     sid = b["sid"]
     pc = b["pcfg"]
     lines = schema_lines("S", schemas[sid])
@@ -21,6 +21,10 @@ def build_script(b, schemas, texts, extra_before=None):
         lines += extra_before
     for t in texts:
         lines.append("parsebuf c1 %s" % enc(t))
+    if roundtrip:
+        fl = ctx_flags(pc)
+        lines += ["print c1", "init c2 S %d" % fl, "reparse c1 c2", "print c2", "init c3 S %d" % fl, "reparse c2 c3",
+                  "print c3", "free c2", "free c3"]
     lines.append("free c1")
     return "\n".join(lines)
 
@@ -109,7 +113,7 @@ def clean_all(b):
 
 
 def replay(verdict, exe, res, aspects, pol=None, seed=0, renderings=("canonical",), tag="parse",
-           maxbeh=None, sigprefix="parse"):
+           maxbeh=None, sigprefix="parse", extra_before=None):
     """Replay every behaviour of a TLC run; record violations in verdict.
     aspects: subset of {'tree','diag','diagpos','cb','freed','balance'}"""
     pol = pol or {}
@@ -128,7 +132,7 @@ def replay(verdict, exe, res, aspects, pol=None, seed=0, renderings=("canonical"
                 continue
             bid = "b%d" % n
             n += 1
-            scripts.append((bid, build_script(b, res.schemas, texts)))
+            scripts.append((bid, build_script(b, res.schemas, texts, extra_before, "roundtrip" in aspects)))
             meta[bid] = (b, texts)
     results = run_behaviours(exe, scripts, tag)
     nontrivial = set()
@@ -161,6 +165,9 @@ def replay(verdict, exe, res, aspects, pol=None, seed=0, renderings=("canonical"
                                   "%s :: %s" % (desc, "; ".join(d for _, d in diffs[:6])),
                                   dict(replay_obj, observed=line, expected=p["exp"]))
                 break
+        if "roundtrip" in aspects:
+            from .apicheck import rt_check
+            rt_check(verdict, {"pre": True, "calls": [], "printed": []}, g, desc, replay_obj, sigprefix)
         if "freed" in aspects and b["parses"] and b["parses"][-1]["exp"]["status"] != "unspec" and clean_all(b):
             # cfg_free hands every pointer still stored to the release callback exactly once
             fl = [l for l in g["lines"] if l["cmd"] == "free"]
